@@ -163,6 +163,9 @@ func cmdCheck(args []string) {
 	if budget == 0 {
 		if tier == "quick" {
 			budget = 75
+			if prop == "C11" {
+				budget = 100
+			}
 		} else {
 			budget = 1500
 		}
@@ -189,6 +192,9 @@ func cmdCheck(args []string) {
 			mixIdx = append(mixIdx, mixRng.Pick(ws))
 		}
 		m := mix[mixIdx[i]]
+		if tier == "thorough" && m.Profile == "long" && i%3 == 1 {
+			m.Profile = "longer"
+		}
 		return RunSpec{Index: i, Seed: runSeed(base, i), Profile: m.Profile, Prop: prop, Mode: m.Mode, Fuel: 5_000_000, Stop: true}
 	}
 	stop := false
@@ -217,7 +223,7 @@ func cmdCheck(args []string) {
 				}
 				sp := specFor(next)
 				next++
-				if left := time.Until(deadline); left < 45*time.Second && getProfile(sp.Profile).Long {
+				if left := time.Until(deadline); left < 40*time.Second && getProfile(sp.Profile).Long {
 					sp.Profile = "mixed" // a long-horizon run would overrun the budget
 				}
 				mu.Unlock()
